@@ -50,16 +50,25 @@ Lemma gen_add_is_model c id arg : keys_agree c ->
   src_add gen_types gen_add c id arg = lift_add c (add c id arg).
 Proof. rewrite gen_add_ref. apply src_add_ref. exact gen_types_same. Qed.
 
+Lemma gen_add_all_is_model c l : keys_agree c -> src_add_all gen_types gen_add c l = add_all c l.
+Proof. rewrite gen_add_ref. apply src_add_all_ref. exact gen_types_same. Qed.
+
+Lemma gen_keys_agree_kept c id arg c' : keys_agree c -> src_add gen_types gen_add c id arg = SAdded c' -> keys_agree c'.
+Proof.
+  intros Hk H. rewrite (gen_add_is_model c id arg Hk) in H. destruct (add c id arg) eqn:Ha; try discriminate H.
+  injection H as <-. eapply add_keys_agree; eauto.
+Qed.
+
 Lemma gen_conversions_are_model :
   (forall c, src_to_dataframe gen_df_rows_from gen_col_rule c = to_dataframe c)
   /\ (forall t, src_from_dataframe gen_split_rule t = from_dataframe t)
   /\ (forall rnd c, src_to_pytorch rnd gen_torch_iter c = to_pytorch rnd c)
-  /\ (forall c ids, src_subset gen_subset_rule c ids = subset c ids)
+  /\ (forall c ids, src_subset gen_types gen_add gen_subset_rule c ids = subset c ids)
   /\ (forall p, src_load_format gen_load_dispatch p = load_format p).
 Proof.
-  rewrite gen_df_rows_ref, gen_col_rule_ref, gen_split_rule_ref, gen_torch_iter_ref, gen_subset_rule_ref, gen_load_dispatch_ref.
+  rewrite gen_df_rows_ref, gen_col_rule_ref, gen_split_rule_ref, gen_torch_iter_ref, gen_subset_rule_ref, gen_load_dispatch_ref, gen_add_ref.
   split; [exact src_to_dataframe_ref|]. split; [exact src_from_dataframe_ref|]. split; [exact src_to_pytorch_ref|].
-  split; [exact src_subset_ref|].
+  split; [intros c ids; apply src_subset_ref; exact gen_types_same|].
   intros p. unfold src_load_format, load_format, ref_load_dispatch. destruct (get_extension p) as [e|]; [|reflexivity].
   cbn [fst snd mem_str existsb]. destruct (String.eqb e "csv"); [reflexivity|]. destruct (String.eqb e "json"); reflexivity.
 Qed.
